@@ -518,6 +518,56 @@ struct Explorer {
     return mp[k] = a;
   }
 
+  // one transition: history h, then op oi; oracle as in run().  Returns false when the op was not executed (crash probe).
+  void judge(const std::vector<int>& h, int oi, Target& t) {
+    std::vector<int> cfg = t.cfgv();
+    Answer a;
+    if (t.risky(ops[oi]) && reference(cfg, oi, false).exc == "CRASH") return;
+    a = t.apply(ops[oi]);
+    transitions++;
+    const Answer& r = reference(cfg, oi, true);
+    if (same(a, r)) { O(std::string("agree-unmerged:") + KIND[kind]); return; }
+    const Answer& f = reference(cfg, oi, false);
+    std::string opn = ops[oi].name.substr(0, ops[oi].name.find('('));
+    std::string cls = p.nullity ? "defect>0" : "defect=0";
+    if (same(a, f)) return;     // first-query class: reported by the merged search
+    V(std::string("C04|history|") + KIND[kind] + "|" + opn + "|" + cls, casestr(h, oi),
+      "history [" + histstr(h) + "] then " + ops[oi].name + " = " + a.show() + " ; fresh object = " + r.show() + " (cfg " + cfgstr(cfg) + ")");
+    O(std::string("history:") + KIND[kind] + ":" + opn);
+  }
+  // The merged search trusts the canonical key: state that the key does not read (a cache member added later, say)
+  // makes two different states look equal and their futures are explored once.  This pass does not merge: every
+  // history of length 2 over the enabled alphabet (and so every one of length 1) is followed by every query.
+  long long unmerged = 0;
+  void unmerged_pass() {
+    int n = (int)ops.size();
+    for (int o1 = 0; o1 < n; o1++) {
+      if (!enabled(ops[o1])) continue;
+      for (int o2 = 0; o2 < n; o2++) {
+        if (!enabled(ops[o2])) continue;
+        if (expired()) { ctx().complete = false; C("unmerged_cut_by_deadline"); return; }
+        std::vector<int> h = {o1, o2};
+        // the crash probe decides on the fresh-object answer of the configuration: skip histories whose steps
+        // are themselves accessors that kill an unprepared object
+        {
+          auto t0 = fresh(p, kind, adj_subset);
+          if (t0->risky(ops[o1]) && reference(t0->cfgv(), o1, false).exc == "CRASH") continue;
+          t0->apply(ops[o1]);
+          if (t0->risky(ops[o2]) && reference(t0->cfgv(), o2, false).exc == "CRASH") continue;
+        }
+        for (int oi = 0; oi < n; oi++) {
+          if (!enabled(ops[oi]) || ops[oi].config) continue;
+          snprintf(crumb, 4000, "%s", casestr(h, oi).c_str());
+          auto t = fresh(p, kind, adj_subset);
+          t->apply(ops[o1]); t->apply(ops[o2]);
+          judge(h, oi, *t);
+          unmerged++;
+        }
+      }
+    }
+    C(std::string("unmerged_histories_") + KIND[kind], unmerged);
+  }
+
   void run() {
     std::deque<std::vector<int>> q; std::unordered_map<std::string, int> seen;
     {
@@ -572,6 +622,7 @@ struct Explorer {
         if (!seen.count(k)) { seen[k] = 1; states++; std::vector<int> h2 = h; h2.push_back(oi); q.push_back(h2); }
       }
     }
+    if (q.empty()) unmerged_pass();
     C("states", states); C("transitions", transitions); C("evaluations", transitions);
     C(std::string("states_") + KIND[kind], states);
     std::string md = std::string("maxdepth_") + KIND[kind];
@@ -609,7 +660,7 @@ static std::vector<Problem> problems() {
   { size_t n0 = P.size(); for (size_t i = 0; i < n0; i++) if (P[i].name == "loop5" || P[i].name == "reg4" || P[i].name == "split4") { Problem q = P[i]; q.name += "+corr"; q.corr = true; P.push_back(q); } }
   // LocalNetwork problems (input files generated by data/c04/make.py)
   std::string dir = ctx().opt.count("data") ? ctx().opt["data"] : "/verif/data/c04";
-  for (const char* nm : {"net2d", "levfree", "net2dfree"}) {
+  for (const char* nm : {"net2d", "levfree", "net2dfree", "bridge2d"}) {
     std::ifstream in(dir + "/" + nm + ".gkf");
     if (!in) continue;
     std::stringstream ss; ss << in.rdbuf();
